@@ -178,13 +178,17 @@ func (s *Store) OpenRelGate() {
 }
 
 // AwaitPutWakeupFetch spins until G1 has fetched its wake-up channel n times.
-func (s *Store) AwaitPutWakeupFetch(n int) {
+func (s *Store) AwaitPutWakeupFetch(n int) bool {
+	deadline := time.Now().Add(GateTimeout)
 	for {
 		s.srcMu.Lock()
 		k := s.putWakeups
 		s.srcMu.Unlock()
 		if k >= n {
-			return
+			return true
+		}
+		if time.Now().After(deadline) {
+			return false
 		}
 		time.Sleep(10 * time.Microsecond)
 	}
@@ -197,13 +201,17 @@ func (s *Store) PutWakeupFetches() int {
 }
 
 // AwaitRelWakeupFetch spins until G2 has fetched its wake-up channel n times.
-func (s *Store) AwaitRelWakeupFetch(n int) {
+func (s *Store) AwaitRelWakeupFetch(n int) bool {
+	deadline := time.Now().Add(GateTimeout)
 	for {
 		s.srcMu.Lock()
 		k := s.relWakeups
 		s.srcMu.Unlock()
 		if k >= n {
-			return
+			return true
+		}
+		if time.Now().After(deadline) {
+			return false
 		}
 		time.Sleep(10 * time.Microsecond)
 	}
